@@ -12,13 +12,15 @@ PID = "C14"
 OBS = ("conn.timeout_ops", "conn.timeout_transport", "_base_transport_args.timeout_transport", "_base_channel_args.timeout_ops",
        "value held by the transport session (_set_timeout)")
 OV = [None, "equal", 0, 0.5, 1, 7.5]
-EXCS = [("timeout", True), ("conn", False), ("other", True)]
+EXCS = [("timeout", True), ("conn", False), ("other", True), ("timeout_close", False)]
+CONSTS = {}       # what the translator extracted (set by run / replay)
 
 
 # ---------------------------------------------------------------- independent statement of the property (oracle)
 def oracle_step(step):
     """-> list of (observable name, before, after) that differ; never looks at the model"""
-    return [(OBS[i], b, a) for i, (b, a) in enumerate(zip(step["before"], step["after"])) if not (a == b)]
+    return [(OBS[i], b, a) for i, (b, a) in enumerate(zip(step["before"], step["after"])) if not (a == b)
+            and not (i == 4 and not step.get("session_open", True))]       # a closed session holds no timeout
 
 
 def oracle_in_force(spec, step, base_ops):
@@ -37,6 +39,10 @@ def matcher(vcase):
     esc = vcase.get("escape")
     if not esc or any(d[0] in (OBS[0], OBS[3]) for d in vcase.get("diff", [])):
         return None
+    if esc["region"] == "gap":
+        return "C14-F3"      # an exception arrived between the swap of _read_until_prompt_or_time and its try
+    if esc["region"] == "swap" and esc["site"] == "push":
+        return "C14-F2"      # transport._set_timeout raised inside read_callback's swapping assignment (before the try)
     if esc["region"] == "chan" and esc["exc"] != "t":
         return "F5"
     if esc["region"] == "cb" and not (esc["site"] == "read" and esc["exc"] == "t"):
@@ -60,6 +66,8 @@ def enc_ov(ov, base_ops):
 def resolve(case):
     """replace the symbolic 'equal' by the connection's own values (a copy; what is really passed to scrapli)"""
     c = json.loads(json.dumps(case))
+    sh = (CONSTS.get("shape") or {}).get(c["stack"])
+    c["swap_in_try"] = bool(sh[3]) if sh else False
     for s in c["ops"]:
         if s.get("ov") == "equal":
             s["ov"] = c["base"][0]
@@ -99,16 +107,30 @@ def enc_op(spec, step, net, consts, stack):
     raise ValueError(op)
 
 
+def _model_log(case, st, consts):
+    """the sites the model knows for this tree: the pre-fix form of read_callback is modelled with a setter that cannot raise"""
+    if consts["shape"][case["stack"]][2]:
+        return st["log"]
+    return [e for e in st["log"] if e["site"] != "push"]
+
+
 def enc_line(case, steps, consts):
+    steps = [dict(st, log=_model_log(case, st, consts)) for st in steps]
     stack = "a" if case["stack"] == "async" else "s"
     net = case["driver"] != "generic"
     ops = ";".join(enc_op(s, st, net, consts, case["stack"]) for s, st in zip(case["ops"], steps))
     tape = ",".join(f"{e['exc'] or '-'}/{int(e['flag'])}" for st in steps for e in st["log"]) or "."
     sess = str(milli(case["base"][1])) if case.get("push") else "x"
-    return f"{stack} t {milli(case['base'][0])} {milli(case['base'][1])} {sess} {ops} {tape}"
+    shape = "t"
+    if case.get("gap") is not None:       # the tree's shape + "an exception may arrive between the channel's swap and its try"
+        shape = "".join("1" if x else "0" for x in consts["shape"][case["stack"]]) + "1"
+    return f"{stack} {shape} {milli(case['base'][0])} {milli(case['base'][1])} {sess} {ops} {tape}"
 
 
-def enc_real(steps):
+def enc_real(steps, case=None, consts=None):
+    if case is not None:
+        steps = [dict(x, log=_model_log(case, x, consts)) for x in steps]
+
     def st(o, t, s):
         return f"{milli(o)}/{milli(t)}/{'x' if s is None else milli(s)}"
     res = ",".join(s["res"] for s in steps) or "."
@@ -257,7 +279,82 @@ def gen_cases(ck, tier, run_one):
                 for k in range(1, min(dry[-1]["reads"], 12) + 1):
                     for exc, soft in EXCS:
                         cases.append(mk("generic", stack, [a, b], [{"at_read": k, "exc": exc, "soft": soft}], push=True))
+    # (5) a session that is gone (closed by a timeout, as decorators._handle_timeout does): every setter push raises
+    P = {"contains": "r1#", "complete": True, "name": "P"}
+    for drv in ("generic", "iosxe"):
+        for stack in stacks:
+            for rt in (0, 0.5, 1, 7.5, "equal", "omit"):
+                for first in ({"op": "send_command", "ov": 0.5}, {"op": "read_callback", "init": True, "rt": 1, "cbs": [P]}):
+                    cases.append(mk(drv, stack, [first, {"op": "read_callback", "init": False, "rt": rt, "cbs": [P]},
+                                                 {"op": "read_callback", "init": True, "rt": rt, "cbs": [P]}],
+                                    [{"at_read": 1, "exc": "timeout_close", "soft": False}], push=True))
+    # (6) an exception arriving between the swap of _read_until_prompt_or_time and its try (what the SIGALRM of the sync
+    #     ops timer does, see signal_sweep), emulated deterministically by an args object that raises after storing;
+    #     compared with the model under Shape.asyncExc (finding C14-F3 while the swap stands before the try)
+    for drv in ("generic", "iosxe"):
+        for gap, ops in ((1, [{"op": "send_and_read", "ov": 3, "rd": 1.5}, {"op": "send_command", "ov": 0.5}]),
+                         (2, [{"op": "send_and_read", "rd": 0.5}, {"op": "send_and_read", "ov": 1, "rd": 7.5}, {"op": "send_and_read", "rd": "omit"}]),
+                         (0, [{"op": "send_and_read", "ov": 3, "rd": 1.5}])):
+            cases.append(mk(drv, "sync", ops, push=(drv == "iosxe"), gap=gap))
     return cases + timer_cases()
+
+
+def signal_sweep(n=500):
+    """main thread, real SIGALRM: send_and_read(timeout_ops=d) for d on a fine grid across the ~0.3 ms the call takes, so
+    that the handler raises at many different points of the call.  -> (cases, ended in ScrapliTimeout, raised between two
+    call sites, leaks as violation cases).  A hit of the swap->try window is timing: it cannot be replayed exactly, the
+    deterministic witness of the same window is the emulated case family (6)."""
+    rig = load_rig()
+    timeouts = between = 0
+    leaks = []
+    for i in range(n):
+        d = 0.00004 + i * 0.000001
+        c = mk("generic", "sync", [{"op": "send_and_read", "ov": d, "rd": 1.5}], push=bool(i % 2))
+        st = rig.run_case_sync(resolve(c))[0]
+        if st["res"] == "t":
+            timeouts += 1
+            if not (st["log"] and st["log"][-1]["exc"]):
+                between += 1
+        if oracle_step(st):
+            last = st["log"][-1] if st["log"] else None
+            # the signature of the swap->try gap: ScrapliTimeout, no call site raised, the last site entered is send_return
+            # (the read loop was not reached), only timeout_transport differs
+            in_gap = (st["res"] == "t" and last is not None and last["site"] == "send_return" and not last["exc"]
+                      and not any(x[0] in (OBS[0], OBS[3]) for x in oracle_step(st)))
+            leaks.append({"case": c, "step": 0, "op": c["ops"][0], "result": st["exc_repr"], "diff": oracle_step(st),
+                          "escape": {"site": "gap", "region": "gap", "exc": "t"} if in_gap else None,
+                          "before": st["before"], "after": st["after"], "real_sigalrm": True})
+    return n, timeouts, between, leaks
+
+
+def paramiko_probe():
+    """the real ParamikoTransport._set_timeout (never opened = no session): read_callback with and without initial_input.
+    -> list of (what, before, after, raised by _set_timeout?)"""
+    from scrapli.driver import GenericDriver
+    from scrapli.driver.generic.base_driver import ReadCallback
+    out = []
+    for kw in ({"read_timeout": 4.5}, {"read_timeout": 0}, {"read_timeout": 4.5, "initial_input": "show version"}, {}):
+        conn = GenericDriver(host="h", auth_bypass=True, transport="paramiko", timeout_ops=30, timeout_transport=7, auth_strict_key=False)
+        if type(conn.transport).__name__ != "ParamikoTransport":
+            return []
+        hit = []
+        orig = conn.transport._set_timeout
+
+        def st(value, orig=orig, hit=hit):
+            try:
+                return orig(value)
+            except BaseException as e:
+                hit.append(type(e).__name__)
+                raise
+        conn.transport._set_timeout = st
+        before = (conn.timeout_ops, conn.timeout_transport)
+        try:
+            conn.read_callback([ReadCallback(lambda d, o: None, contains="#", complete=True)], **kw)
+            res = "returned"
+        except Exception as e:
+            res = type(e).__name__
+        out.append((kw, res, before, (conn.timeout_ops, conn.timeout_transport), bool(hit)))
+    return out
 
 
 # ---------------------------------------------------------------- running
@@ -337,7 +434,7 @@ def evaluate(ck, case, steps, consts, mline=None, count=True):
                 tags=(f"stack={case['stack']}", f"driver={case['driver']}", f"ncalls={len(case['ops'])}", f"nfaults={len(case['faults'])}",
                       "session-push" if case.get("push") else "no-session", "timer" if case.get("timer") else "scripted"))
     if mline is not None:
-        real = enc_real(steps)
+        real = enc_real(steps, rc, consts)
         # a REAL timer of the decorators expired during a scripted case (only under extreme machine load): the call ends in
         # ScrapliTimeout although no call site raised one (SIGALRM between two sites / asyncio cancellation converted by
         # timeout_wrapper).  The oracle above still applies; the trace is not compared.
@@ -383,6 +480,8 @@ def run(tier, seed):
         translate.translate(PID)
         from gen import c14 as g
         consts = g.extract()
+        CONSTS.clear()
+        CONSTS.update(consts)
     except Exception as e:
         ck.proof_broken("translator gen/c14.py", repr(e))
     if consts is not None:
@@ -395,15 +494,36 @@ def run(tier, seed):
     # findings (status open: replay the witness; status fixed: suppress nothing)
     ff = VERIF / "findings" / "C14.json"
     if ff.exists():
-        have = {f["id"] for f in ck.findings}
-        ck.findings += [f for f in json.load(open(ff)) if f["id"] not in have]
+        mine = json.load(open(ff))          # the owner's file is the authority for its ids until the lead has merged it
+        ids = {f["id"] for f in mine}
+        ck.findings = [f for f in ck.findings if f["id"] not in ids] + mine
     rig = load_rig()
     for f in ck.findings:
         if f.get("status") == "open":
-            w = {k: f["witness"][k] for k in ("driver", "stack", "push", "base", "ops", "faults")}
+            w = {k: f["witness"][k] for k in ("driver", "stack", "push", "base", "ops", "faults", "gap") if k in f["witness"]}
             st = asyncio.run(rig.run_case_async(resolve(w))) if w["stack"] == "async" else rig.run_case_sync(resolve(w))
             if any(oracle_step(s) for s in st):
                 ck.known_finding(f["id"], f["what"])
+    # the real paramiko transport class (no session): the push raises inside the swapping assignment
+    try:
+        for kw, res, before, after, in_push in paramiko_probe():
+            ck.case(("paramiko", json.dumps(kw)), nontrivial=True, tags=("real-ParamikoTransport",))
+            if before != after:
+                ck.violation({"case": {"real_transport": "paramiko (never opened)", "call": "read_callback", "kwargs": kw}, "result": res,
+                              "diff": [(OBS[1], before[1], after[1])] if before[0] == after[0] else [(OBS[0], before[0], after[0])],
+                              "escape": {"site": "push", "region": "swap", "exc": "o9"} if (in_push and "initial_input" not in kw) else None},
+                             f"read_callback({kw}) on an unopened ParamikoTransport ended ({res}) and left (timeout_ops, timeout_transport) {before} -> {after}", matcher)
+    except Exception as e:
+        ck.extra["paramiko_probe_error"] = repr(e)
+    try:
+        n, nt, nb, leaks = signal_sweep(500 if tier == "quick" else 4000)
+        ck.extra["sigalrm_sweep"] = {"cases": n, "ended_in_ScrapliTimeout": nt, "raised_between_two_call_sites": nb,
+                                     "left_a_timeout_behind": len(leaks), "samples": [{"timeout_ops": x["op"]["ov"], "diff": x["diff"]} for x in leaks[:3]]}
+        for x in leaks:
+            ck.violation(x, f"send_and_read(timeout_ops={x['op']['ov']}) ended ({x['result']}) under a real SIGALRM and left " +
+                         "; ".join(f"{n_}: {b!r} -> {a!r}" for n_, b, a in x["diff"]), matcher)
+    except Exception as e:
+        ck.extra["sigalrm_sweep"] = {"error": repr(e)}
     # 3 cases
     cases = gen_cases(ck, tier, lambda c: rig.run_case_sync(resolve(c)))
     phase("generate(+dry runs)")
@@ -469,6 +589,17 @@ def replay(path):
         print("no case in replay file")
         return 2
     rig = load_rig()
+    if case.get("real_transport"):
+        bad = 0
+        for kw, res, before, after, in_push in paramiko_probe():
+            print(kw, "->", res, before, "->", after, "(raised by _set_timeout)" if in_push else "")
+            bad += before != after
+        return 1 if bad else 0
+    try:
+        from gen import c14 as g
+        CONSTS.update(g.extract())
+    except Exception:
+        pass
     rc = resolve(case)
     steps = asyncio.run(rig.run_case_async(rc)) if rc["stack"] == "async" else rig.run_case_sync(rc)
     bad = 0
